@@ -66,6 +66,9 @@ CHECKS = {
     "C13": dict(level="model_checking", ref="5 (C13), 4.7",
                 technique="TLC model checking of TheoLR1.tla (in-model theorem: canonical LR(1) driver <=> bounded derivability, unique tree, ambiguity => conflict, FIRST) over all small grammars + S->I replay into the real LRParser template on the ASan/UBSan build",
                 text="All 10822 grammars over S, A / a, b with <= 3 rules (thorough 4) and right-hand sides <= 2, plus ~5400 chain grammars over four non-terminals (unit and epsilon rules), each with all inputs of <= 4 (3) terminals in full and prefix mode: TLC proves the theorem inside the model for every grammar, then the real generator and parser are compared: no conflict reported => the parser accepts exactly the (prefix) language given by the declarative Lang and returns the fold of the unique tree (children last symbol first); ambiguous => a conflict is reported; Grammar::first_sets equal the textbook fixpoint. Conflicts reported where canonical LR(1) has none are counted, not violations."),
+    "C18": dict(level="exploration", ref="5 (C18), 4.9",
+                technique="I->S validation of merged multi-threaded logs (ThreadSanitizer build) against TheoSys.tla (constant CompileFn, program order, instance ownership) and of every VM instance's log against TheoVMTrace.tla; shuffled sequential orders",
+                text="CompileFn[input] is recorded by a fresh single-threaded process per pool input; the pool (generated programs with macros, includes and loops, erroneous inputs, near-duplicates that move a macro definition) is then compiled in shuffled orders inside one process, and by 2-8 threads of the ThreadSanitizer build that also drive private VM instances with random debugger histories. TLC validates the merged log against TheoSys (every compile event returns CompileFn[input], per-thread program order, each instance owned by one thread) and every instance's log against TheoVMTrace with all fields bound; a ThreadSanitizer report or crash is an abort event without explanation."),
 }
 
 NOT_YET = "check not built yet in this session (construction order in DESIGN.md section 10); will be claimed when its check exists"
